@@ -94,7 +94,12 @@ def build(sym, shape, opts, focus):
         ti.media.discnum = sym.int("discnum", 1, 99)
         ti.media.totaldiscs = sym.int("totaldiscs", 1, 99)
     for i, path in enumerate(opts["checksums"]):
-        ti.checksums.add(path, sym.str("cs_type%d" % i, 3, minlen=1, alphabet="alnum"), sym.str("cs_value%d" % i, 3, minlen=1, alphabet="alnum"))
+        if opts.get("long_digest") and i == 0:
+            # a digest of realistic length (up to 66 hex characters) under an arbitrary type name: the declared type is what counts
+            value = sym.str("cs_value%d" % i, 66, minlen=1, alphabet=["a", "0"])
+        else:
+            value = sym.str("cs_value%d" % i, 3, minlen=1, alphabet="alnum")
+        ti.checksums.add(path, sym.str("cs_type%d" % i, 3, minlen=1, alphabet="alnum"), value)
     return ti, objs
 
 
@@ -229,6 +234,10 @@ def jobs(tier, seed):
             o = _opts(shape, k)
             out.append({"harness": "roundtrip", "params": {"shape": shape, "opts": o, "focus": _focus(shape, o, k + seed), "history": (len(out) + seed) % 2 == 1},
                         "validate_every": 40})
+            if o["checksums"] and not any(j["params"].get("opts", {}).get("long_digest") for j in out):
+                o2 = dict(o)
+                o2["long_digest"] = True
+                out.append({"harness": "roundtrip", "params": {"shape": shape, "opts": o2, "focus": _focus(shape, o2, k + seed)}, "validate_every": 40})
     for fi in range(len(FLOATS)):
         out.append({"harness": "discinfo_roundtrip", "params": {"numbers": ["ALL", 1, 2, 3][fi % 4], "quoted_ok": False, "fi": fi}})
     return out
